@@ -1338,7 +1338,7 @@ def _all_fns(src, mask, lo, hi, acc, owner=None):
             _all_fns(src, mask, it.body_start + 1, it.end - 1, acc, it if it.kind == 'impl' else owner)
 
 
-def _find_helper(unit, rel, name):
+def _find_helper(unit, rel, name, qual=None):
     """definition of `fn name` with a body: in the calling function's own file first, then anywhere under src/"""
     cands = []
     files = [rel]
@@ -1359,6 +1359,8 @@ def _find_helper(unit, rel, name):
         acc = []
         _all_fns(src, mask, 0, len(src), acc)
         here = [(it, ow) for it, ow in acc if it.name == name]
+        if qual:
+            here = [(it, ow) for it, ow in here if ow is not None and re.match(r'^impl(?:\s*<[^>]*>)?\s+(?:[\w:]+::)?%s\b(?!\s*for\b)' % re.escape(qual), norm_ws(ow.header))]
         if here:
             cands.extend((r, src, mask, it, ow) for it, ow in here)
             if r == rel:
@@ -1391,21 +1393,25 @@ def rule_R24_inline(unit, rel, text, ctx):
     out = text
     for name in sorted(names):
         guard = 0
+        # `Type::name`: an associated function that the compiler misses on that type (several types have a `new`): only calls
+        # written with that type are inlined, from the impl of that type
+        qual, fname = (name.rsplit('::', 1) if '::' in name else (None, name))
         while True:
             guard += 1
             if guard > 20:
                 raise Unsupported('R24: inlining of %s did not terminate' % name)
             mask = code_mask(out)
-            mm = next((m for m in re.finditer(r'(?<![\w])%s\s*\(' % re.escape(name), out)
+            call_rx = (r'(?<![\w:])(?:\w+::)*%s::%s\s*\(' % (re.escape(qual), re.escape(fname))) if qual else (r'(?<![\w])%s\s*\(' % re.escape(name))
+            mm = next((m for m in re.finditer(call_rx, out)
                        if mask[m.start()] and not re.search(r'\bfn\s+$', out[:m.start()])), None)
             if not mm:
                 break
-            found = _find_helper(unit, rel, name)
+            found = _find_helper(unit, rel, fname, qual)
             if found is None:
                 raise Unsupported('R24: no unique definition of fn %s in the repository' % name)
             hrel, hsrc, hmask, it, owner = found
             header = hsrc[it.start:it.body_start]
-            if re.search(r'\bfn\s+%s\s*<' % re.escape(name), header) or re.search(r'\bimpl\b', header[re.search(r'\bfn\b', header).end():]) or 'async' in header.split('fn')[0]:
+            if re.search(r'\bfn\s+%s\s*<' % re.escape(fname), header) or re.search(r'\bimpl\b', header[re.search(r'\bfn\b', header).end():]) or 'async' in header.split('fn')[0]:
                 raise Unsupported('R24: helper %s is generic / async' % name)
             hbody = hsrc[it.body_start + 1:it.end - 1]
             hbm = hmask[it.body_start + 1:it.end - 1]
@@ -1451,9 +1457,9 @@ def rule_R24_inline(unit, rel, text, ctx):
                 if re.search(r'\breturn\b', code):
                     raise Unsupported('R24: helper %s uses return' % name)
                 unit.rule_log.append({'rule': 'R24', 'before': 'early `if C { return V; }` of helper %s' % name, 'after': '`if C { V } else { rest }`', 'where': rel})
-            if re.search(r'(?<![\w])%s\s*\(' % re.escape(name), code):
+            if re.search(r'(?<![\w])%s\s*\(' % re.escape(fname), code) and not qual:
                 raise Unsupported('R24: helper %s is recursive' % name)
-            op = hsrc.index('(', re.compile(r'\bfn\s+%s\b' % re.escape(name)).search(hsrc, it.start).end())
+            op = hsrc.index('(', re.compile(r'\bfn\s+%s\b' % re.escape(fname)).search(hsrc, it.start).end())
             cp = match_brace(hsrc, hmask, op)
             params = _split_params(hsrc[op + 1:cp])
             # call site: arguments and receiver
